@@ -9,6 +9,7 @@ import (
 	"fmt"
 	"io"
 	"sort"
+	"strings"
 
 	"golang.org/x/text/language"
 	"seehuhn.de/go/pdf"
@@ -66,7 +67,21 @@ func revItems(gen7 int) []revItem {
 		{num: 14, item: item{name: "17-byte stream", stream: &streamSpec{dict: pdf.Dict{}, body: marker(74, 9, 17)}}},
 		{num: 15, item: item{name: "equal body", stream: &streamSpec{dict: pdf.Dict{}, body: sameBody}}},
 		{num: 16, item: item{name: "2000-byte stream", stream: &streamSpec{dict: pdf.Dict{"Note": mstr(75, 0, 24)}, body: marker(75, 9, 2000)}}},
+		// component-level metadata: encrypted like every other stream, also
+		// when /EncryptMetadata is false (that entry is about the
+		// document-level metadata stream only)
+		{num: 17, item: item{name: "component metadata stream (Metadata/XML)", stream: &streamSpec{dict: pdf.Dict{"Type": pdf.Name("Metadata"), "Subtype": pdf.Name("XML"), "Note": mstr(76, 0, 24)}, body: marker(76, 9, 200)}}},
+		{num: 18, item: item{name: "component metadata stream (Metadata/XML, Flate)", stream: &streamSpec{dict: pdf.Dict{"Type": pdf.Name("Metadata"), "Subtype": pdf.Name("XML")},
+			body: append(bytes.Repeat([]byte("<rdf:li>compressible packet text</rdf:li> "), 30), marker(77, 9, 40)...)}}, flate: true},
 	}
+}
+
+// revItemsFor gives the items of the file of a direction-2 case.
+func revItemsFor(c *Case) []revItem {
+	if c.Graph == "len" {
+		return lenRevItems(c.LenLo, c.LenHi)
+	}
+	return revItems(c.Gen)
 }
 
 // ---------------------------------------------------------------------------
@@ -236,7 +251,7 @@ func buildFile(g *graph, c *Case) (*built, error) {
 		}
 		return nil, err
 	}
-	bl := &built{items: revItems(c.Gen), h: h}
+	bl := &built{items: revItemsFor(c), h: h}
 	var objs []serObj
 	add := func(num, gen int, v pdfsyn.Value) error {
 		ev, err := encryptValue(h, num, gen, v)
@@ -334,9 +349,18 @@ func (c *Case) revCfg() string {
 // verifyRead compares what the Reader returns with the model.
 func verifyRead(g *graph, c *Case, bl *built, rd *pdf.Reader) *failure {
 	cfg := c.revCfg()
+	lenBad := map[string][]string{}
 	for _, it := range bl.items {
 		ref := pdf.NewReference(uint32(it.num), uint16(it.gen))
 		cls := cfg + ":" + numClass(it.num) + ":" + genClass(it.gen)
+		if it.stream != nil {
+			if t := streamTag(it.stream.dict); t != "" {
+				cls += ":stream-tagged-" + t
+			}
+		}
+		if c.Graph == "len" {
+			cls = cfg + ":stream-length-space"
+		}
 		got, err := rd.Get(ref, true)
 		if err != nil {
 			return &failure{"reader:get-error:" + cls, fmt.Sprintf("%s %d %d: %v", it.name, it.num, it.gen, err)}
@@ -361,12 +385,33 @@ func verifyRead(g *graph, c *Case, bl *built, rd *pdf.Reader) *failure {
 				return &failure{"reader:stream-dict-differs:" + cls, fmt.Sprintf("%s %d %d /%s reads %s, reference wrote %s", it.name, it.num, it.gen, k, hx.Show(stm.Dict[pdf.Name(k)]), hx.Show(it.stream.dict[pdf.Name(k)]))}
 			}
 		}
-		body, err := readStream(rd, stm)
+		body, err := readStreamBuf(rd, stm, c.IO)
+		if c.Graph == "len" {
+			// every length of the file is judged; one failure per symptom
+			// lists the lengths
+			switch {
+			case err != nil:
+				lenBad["read-error"] = append(lenBad["read-error"], fmt.Sprintf("%d (%v)", len(it.stream.body), err))
+			case bytes.Equal(body, it.stream.body):
+			case len(body) < len(it.stream.body) && bytes.HasPrefix(it.stream.body, body):
+				lenBad["truncated"] = append(lenBad["truncated"], fmt.Sprintf("%d (%d bytes read)", len(it.stream.body), len(body)))
+			case len(body) > len(it.stream.body) && bytes.HasPrefix(body, it.stream.body):
+				lenBad["extra-bytes"] = append(lenBad["extra-bytes"], fmt.Sprintf("%d (%d bytes read)", len(it.stream.body), len(body)))
+			default:
+				lenBad["differs"] = append(lenBad["differs"], fmt.Sprintf("%d (%d bytes read)", len(it.stream.body), len(body)))
+			}
+			continue
+		}
 		if err != nil {
 			return &failure{"reader:stream-read-error:" + cls, fmt.Sprintf("%s %d %d: %v", it.name, it.num, it.gen, err)}
 		}
 		if !bytes.Equal(body, it.stream.body) {
 			return &failure{"reader:stream-body-differs:" + cls, fmt.Sprintf("%s %d %d: read %d bytes %q, reference wrote %d bytes %q", it.name, it.num, it.gen, len(body), clip(body, 32), len(it.stream.body), clip(it.stream.body, 32))}
+		}
+	}
+	for _, sym := range []string{"truncated", "extra-bytes", "differs", "read-error"} {
+		if l := lenBad[sym]; len(l) > 0 {
+			return &failure{"reader:stream-body-" + sym + ":" + cfg + ":stream-length-space", fmt.Sprintf("streams written by the reference with these lengths are not read back (%s): %s", sym, strings.Join(l, ", "))}
 		}
 	}
 	m := rd.GetMeta()
@@ -388,6 +433,38 @@ func verifyRead(g *graph, c *Case, bl *built, rd *pdf.Reader) *failure {
 		}
 	}
 	return nil
+}
+
+// readStreamBuf reads the decoded stream through a buffer of n bytes (n = 0:
+// io.ReadAll).
+func readStreamBuf(rd *pdf.Reader, stm *pdf.Stream, n int) ([]byte, error) {
+	if n <= 0 {
+		return readStream(rd, stm)
+	}
+	r, err := pdf.DecodeStream(rd, nil, stm)
+	if err != nil {
+		return nil, err
+	}
+	defer r.Close()
+	var out []byte
+	buf := make([]byte, n)
+	for idle := 0; ; {
+		k, err := r.Read(buf)
+		out = append(out, buf[:k]...)
+		if err == io.EOF {
+			return out, nil
+		}
+		if err != nil {
+			return out, err
+		}
+		if k == 0 {
+			if idle++; idle > 100 {
+				return out, io.ErrNoProgress
+			}
+		} else {
+			idle = 0
+		}
+	}
 }
 
 func readStream(rd *pdf.Reader, stm *pdf.Stream) ([]byte, error) {
@@ -416,7 +493,7 @@ func (rn *runner) checkRead(c *Case) []failure {
 	cfg := c.revCfg()
 	pu, _ := stdsec.Prepare(c.User, c.R)
 	po, _ := stdsec.Prepare(c.Owner, c.R)
-	r.DistinctS(fmt.Sprintf("r|%s|%s|%s|%s|%d|%d|%v|%x|%x", cfg, c.Version, c.Meta, c.ID, c.Perm, c.Gen, c.Hex, pu, po))
+	r.DistinctS(fmt.Sprintf("r|%s|%s|%s|%s|%d|%d|%v|%x|%x|%s|%d|%d|%d", cfg, c.Version, c.Meta, c.ID, c.Perm, c.Gen, c.Hex, pu, po, c.Graph, c.LenLo, c.LenHi, c.IO))
 
 	effOwner := c.Owner
 	if effOwner == "" && c.R <= 4 {
